@@ -443,6 +443,39 @@ static void codec_pfor(const uint64_t *vals, size_t n) {
                 if (ec != em.exceptionCount || pairs != ec || pos != wrote) {
                     AFAIL("PFOR.Encode", "metadata_untrue", "%s thr=%u: exceptionCount field=%" PRIu64 " meta=%u pairs present=%zu end=%zu/%zu", cur_desc, thr[t], ec, em.exceptionCount, pairs, pos, wrote);
                 }
+                /* ground truth from the frame itself: the exceptions are exactly the cells holding the all-ones
+                 * marker, and every listed (index, value) pair names such a cell and the input value at it */
+                if (rm.width >= 1 && rm.width <= 8) {
+                    uint64_t marker = rm.width == 8 ? UINT64_MAX : ((1ULL << (8 * rm.width)) - 1);
+                    size_t marked = 0;
+                    for (size_t i = 0; i < n; i++) {
+                        uint64_t cell = 0;
+                        memcpy(&cell, enc + want_hdr + i * (size_t)rm.width, (size_t)rm.width);
+                        marked += cell == marker;
+                    }
+                    size_t q = want_hdr + n * (size_t)rm.width, good = 0;
+                    uint64_t ec2 = 0, last = 0;
+                    q += varintTaggedGet64(enc + q, &ec2);
+                    for (uint64_t e = 0; e < ec2 && q < wrote; e++) {
+                        uint64_t a = 0, b = 0, cell = 0;
+                        q += varintTaggedGet64(enc + q, &a);
+                        if (q >= wrote) {
+                            break;
+                        }
+                        q += varintTaggedGet64(enc + q, &b);
+                        if (a < n && (e == 0 || a > last) && b == vals[a]) {
+                            memcpy(&cell, enc + want_hdr + a * (size_t)rm.width, (size_t)rm.width);
+                            good += cell == marker;
+                        }
+                        last = a;
+                    }
+                    if (marked != em.exceptionCount || good != marked || cm.exceptionCount != marked) {
+                        AFAIL("PFOR.Encode", "metadata_untrue", "%s thr=%u: %zu cells of the frame hold the exception marker, %zu listed pairs name such a cell with the input's value, but exceptionCount is %u (ComputeThreshold said %u)", cur_desc,
+                              thr[t], marked, good, em.exceptionCount, cm.exceptionCount);
+                    }
+                }
+            } else if (em.exceptionCount != 0 || cm.exceptionCount != 0) {
+                AFAIL("PFOR.Encode", "metadata_untrue", "%s thr=%u: no exception section present but exceptionCount is %u", cur_desc, thr[t], em.exceptionCount);
             }
         }
         if (M02) {
